@@ -49,3 +49,4 @@ def alarm_filter(stream, case, impl_out, model_out):
     if stream.startswith("engine"):
         return ep.alarm_filter(stream, case, impl_out, model_out)
     return rk.alarm_filter(stream, case, impl_out, model_out)
+valid_case = ep.valid_case
